@@ -79,6 +79,17 @@ type SpecOut struct {
 	curIdx      int
 	risky       bool
 	postGated   bool
+	failing     []failingPost // visits of PostTransforms that return an error, met while no issue existed
+	failGated   bool          // a failing PostTransform was met after an issue existed
+	failedHere  *Node
+	// PostFailed: the execution's only issue comes from a PostTransform that returned an error
+	PostFailed bool
+}
+
+type failingPost struct {
+	path      string
+	node      *Node
+	behaviour string
 }
 
 func (o *SpecOut) unknown(f string, a ...any) {
@@ -150,6 +161,22 @@ func Spec(n *Node, cfg SpecCfg, in any, dst reflect.Value) *SpecOut {
 			specValidate(n, cfg, dst, "", nil, out)
 		}
 	}()
+	if len(out.failing) > 0 || out.failGated {
+		switch {
+		case len(out.Issues) > 0 || len(out.failing) != 1:
+			out.unknown("a failing PostTransform next to other issues or other failing PostTransforms (visit-order dependent by the documented gating)")
+		default:
+			f := out.failing[0]
+			out.cur, out.curIdx = f.node, -3
+			if f.behaviour == "issue" {
+				out.add("post.path", "post_issue", "*") // a returned ZogIssue is reported as it is
+			} else {
+				out.add(f.path, "*", "*") // an issue wrapping the returned error at the node's path
+			}
+			out.PostFailed = true
+			out.DestUnknown = true
+		}
+	}
 	if len(out.Issues) > 0 && out.risky {
 		out.unknown("issues present and a mutating PostTransform sits below a data-dependent test (visit-order dependent by the documented gating)")
 	}
@@ -215,8 +242,11 @@ func setCatch(n *Node, dst reflect.Value, path string, out *SpecOut) {
 	}
 }
 
-func (o *SpecOut) schedulePosts(n *Node, dst reflect.Value, absentOptional bool) {
+func (o *SpecOut) schedulePosts(n *Node, dst reflect.Value, path string, absentOptional bool) {
 	for _, p := range n.Posts {
+		if o.failedHere == n && !absentOptional {
+			break // the first error returned stops the node's remaining PostTransforms
+		}
 		switch p.Behaviour {
 		case "mutate":
 			if absentOptional {
@@ -237,7 +267,20 @@ func (o *SpecOut) schedulePosts(n *Node, dst reflect.Value, absentOptional bool)
 				o.postGated = true
 			}
 		case "error", "issue", "wrapped":
-			o.unknown("failing PostTransform is outside the generic specification")
+			// A failing PostTransform is determined only when it is the single such visit of the execution and
+			// nothing else produces an issue (otherwise which transform still runs depends on the visit order,
+			// by the documented gating); Spec() settles that once the whole record has been read.
+			if absentOptional || n.Catch != nil {
+				o.unknown("failing PostTransform on a skipped or catching node")
+				continue
+			}
+			if len(o.Issues) > 0 {
+				o.postGated = true
+				o.failGated = true
+				continue
+			}
+			o.failing = append(o.failing, failingPost{path: path, node: n, behaviour: p.Behaviour})
+			o.failedHere = n
 		}
 	}
 }
@@ -285,14 +328,14 @@ func specParse(n *Node, cfg SpecCfg, in any, dst reflect.Value, path string, loc
 			case n.Req:
 				if n.Catch != nil {
 					setCatch(n, dst, path, out)
-					out.schedulePosts(n, dst, false)
+					out.schedulePosts(n, dst, path, false)
 					return
 				}
 				out.cur, out.curIdx = n, -1
 				out.add(reqPath(n, path), reqCode(n, "required"), n.ZType())
 				return
 			default:
-				out.schedulePosts(n, dst, true)
+				out.schedulePosts(n, dst, path, true)
 				return
 			}
 		} else {
@@ -304,7 +347,7 @@ func specParse(n *Node, cfg SpecCfg, in any, dst reflect.Value, path string, loc
 			case CoerceFail:
 				if n.Catch != nil {
 					setCatch(n, dst, path, out)
-					out.schedulePosts(n, dst, false)
+					out.schedulePosts(n, dst, path, false)
 					return
 				}
 				out.cur, out.curIdx = n, -2
@@ -314,7 +357,7 @@ func specParse(n *Node, cfg SpecCfg, in any, dst reflect.Value, path string, loc
 			dst.Set(reflect.ValueOf(v).Convert(dst.Type()))
 		}
 		runTests(n, dst, path, out)
-		out.schedulePosts(n, dst, false)
+		out.schedulePosts(n, dst, path, false)
 	case n.Kind == KSlice:
 		var elems []any
 		if IsParseAbsent(in) {
@@ -330,7 +373,7 @@ func specParse(n *Node, cfg SpecCfg, in any, dst reflect.Value, path string, loc
 				out.add(reqPath(n, path), reqCode(n, "required"), "slice")
 				return
 			default:
-				out.schedulePosts(n, dst, true)
+				out.schedulePosts(n, dst, path, true)
 				return
 			}
 		} else if n.Coercer == "custom" || n.Coercer == "global" {
@@ -363,7 +406,7 @@ func specParse(n *Node, cfg SpecCfg, in any, dst reflect.Value, path string, loc
 			specParse(n.Elem, cfg, e, dst.Index(i), fmt.Sprintf("%s[%d]", path, i), locAdd(loc, fmt.Sprintf("I:%d", i)), out)
 		}
 		runTests(n, dst, path, out)
-		out.schedulePosts(n, dst, false)
+		out.schedulePosts(n, dst, path, false)
 	case n.Kind == KStruct:
 		get, ok := structGetter(in)
 		if _, nested := in.(FlatNested); nested && cfg.Flat != nil {
@@ -386,7 +429,7 @@ func specParse(n *Node, cfg SpecCfg, in any, dst reflect.Value, path string, loc
 			specParse(f.Node, cfg, get(key), dst.FieldByName(f.GoName()), joinKey(path, key), locAdd(loc, "F:"+f.GoName()), out)
 		}
 		runTests(n, dst, path, out)
-		out.schedulePosts(n, dst, false)
+		out.schedulePosts(n, dst, path, false)
 	case n.Kind == KPtr:
 		if IsParseAbsent(in) {
 			if n.Req {
@@ -542,19 +585,19 @@ func specValidate(n *Node, cfg SpecCfg, dst reflect.Value, path string, loc []st
 			case n.Req:
 				if n.Catch != nil {
 					setCatch(n, dst, path, out)
-					out.schedulePosts(n, dst, false)
+					out.schedulePosts(n, dst, path, false)
 					return
 				}
 				out.cur, out.curIdx = n, -1
 				out.add(reqPath(n, path), reqCode(n, "required"), n.ZType())
 				return
 			default:
-				out.schedulePosts(n, dst, true)
+				out.schedulePosts(n, dst, path, true)
 				return
 			}
 		}
 		runTests(n, dst, path, out)
-		out.schedulePosts(n, dst, false)
+		out.schedulePosts(n, dst, path, false)
 	case n.Kind == KSlice:
 		if dst.Len() == 0 {
 			switch {
@@ -565,7 +608,7 @@ func specValidate(n *Node, cfg SpecCfg, dst reflect.Value, path string, loc []st
 				out.add(reqPath(n, path), reqCode(n, "required"), "slice")
 				return
 			default:
-				out.schedulePosts(n, dst, true)
+				out.schedulePosts(n, dst, path, true)
 				return
 			}
 		}
@@ -573,13 +616,13 @@ func specValidate(n *Node, cfg SpecCfg, dst reflect.Value, path string, loc []st
 			specValidate(n.Elem, cfg, dst.Index(i), fmt.Sprintf("%s[%d]", path, i), locAdd(loc, fmt.Sprintf("I:%d", i)), out)
 		}
 		runTests(n, dst, path, out)
-		out.schedulePosts(n, dst, false)
+		out.schedulePosts(n, dst, path, false)
 	case n.Kind == KStruct:
 		for _, f := range n.Fields {
 			specValidate(f.Node, cfg, dst.FieldByName(f.GoName()), joinKey(path, cfg.KeyOf(f)), locAdd(loc, "F:"+f.GoName()), out)
 		}
 		runTests(n, dst, path, out)
-		out.schedulePosts(n, dst, false)
+		out.schedulePosts(n, dst, path, false)
 	case n.Kind == KPtr:
 		if dst.IsNil() {
 			if n.Req {
